@@ -424,6 +424,10 @@ def get_p_sys_sequence(ctx):
     for a in walk_no_nested(f.node):
         if is_call_to(a, "append", "args"):
             items.append(a.args[0])
+    # signals handed to the packer together with the stacked list: return self.pack_p_sys(stage, vcat(args), self.get_signals_at(stage, k))
+    for r in walk_no_nested(f.node):
+        if isinstance(r, ast.Return) and is_call_to(r.value, "pack_p_sys", "self") and len(r.value.args) == 3:
+            items.append(r.value.args[2])
     for e in items:
         t = ast.unparse(e)
         if t in ("vvcat(self.P)", "veccat(*self.P)"):
@@ -494,18 +498,90 @@ def lcs(a, b):
     return out[::-1]
 
 
+def check_packer(ctx):
+    """SamplingMethod.pack_p_sys(stage, pv, signals), when present, is the one place that merges the stacked parameters/variables
+    with the sampled signals.  Verified here: the split point of pv is the size of the non-bspline parameter kinds of Stage.p, the
+    signal rows are classified by each signal's own `parametric` flag with a running offset over ALL signals in registration
+    order, and the result is [pv[:n_p], parameter-signal rows, pv[n_p:], variable-signal rows].  Returns True when the packer
+    exists (and was checked), False when the code still appends the signals at the end."""
+    P = ctx.prog
+    if "pack_p_sys" not in P.cls("SamplingMethod").methods:
+        return False
+    f = P.own_method("SamplingMethod", "pack_p_sys")
+    sc = ctx.scope(f)
+    st, pv, sg = f.params[1], f.params[2], f.params[3]
+    K = lambda t: Norm(None).key(ast.parse(t, mode="eval").body)
+    # n_p
+    want_kinds = [k_.split(":", 1)[1] for k_ in stage_pack_sequence(ctx) if k_.startswith("P:") and k_ != "P:bspline"]
+    npd = [d for d in sc.defs.get("n_p", []) if d.kind == "assign"]
+    ok = False
+    found = ast.unparse(npd[0].value) if npd else None
+    if len(npd) == 1 and is_call_to(npd[0].value, "sum") and npd[0].value.args and isinstance(npd[0].value.args[0], ast.GeneratorExp):
+        g = npd[0].value.args[0]
+        if len(g.generators) == 2 and isinstance(g.generators[0].iter, (ast.List, ast.Tuple)) and all(isinstance(e, ast.Constant) for e in g.generators[0].iter.elts):
+            kinds = [e.value for e in g.generators[0].iter.elts]
+            gv = ast.unparse(g.generators[0].target)
+            ev = ast.unparse(g.generators[1].target)
+            ok = sorted(kinds) == sorted(want_kinds) and len(kinds) == len(set(kinds)) and ast.unparse(g.generators[1].iter) == "%s.parameters[%s]" % (st, gv) \
+                and ast.unparse(g.elt) in ("%s.numel()" % ev, "%s.nnz()" % ev) and not g.generators[0].ifs and not g.generators[1].ifs
+    ctx.check(ok, "pack_p_sys split point = size of the non-bspline parameters", detail="parameter/variable boundary of the stacked vector", expected="n_p = sum(p.numel() for grid in %s for p in stage.parameters[grid])" % want_kinds, found=found, fi=f)
+    # classification loop
+    loops = [l for l in walk_no_nested(f.node) if isinstance(l, ast.For)]
+    ok = len(loops) == 1 and ast.unparse(loops[0].iter) == "self.signals.values()" and isinstance(loops[0].target, ast.Name)
+    found = ast.unparse(loops[0].iter) if loops else None
+    if ok:
+        e = loops[0].target.id
+        body = loops[0].body
+        nd = [b for b in body if isinstance(b, ast.Assign) and ast.unparse(b.targets[0]) == "n"]
+        adv = [b for b in body if isinstance(b, ast.AugAssign) and ast.unparse(b.target) == "offset" and isinstance(b.op, ast.Add) and ast.unparse(b.value) == "n"]
+        ext = [b for b in body if isinstance(b, ast.Expr) and isinstance(b.value, ast.Call) and isinstance(b.value.func, ast.Attribute) and b.value.func.attr == "extend"]
+        init = [d for d in sc.defs.get("offset", []) if d.kind == "assign"]
+        ok = len(nd) == 1 and ast.unparse(nd[0].value) in ("%s.coeff.shape[0]" % e, "%s.coeff.size1()" % e) and len(adv) == 1 and len(ext) == 1 and len(body) == 3 \
+            and len(init) == 1 and ast.unparse(init[0].value) == "0" and body.index(adv[0]) > body.index(ext[0]) > body.index(nd[0])
+        if ok:
+            c = ext[0].value
+            ok = Norm(None).key(c.func.value) == K("rows_p if %s.parametric else rows_v" % e) and Norm(None).key(c.args[0]) == K("range(offset, offset+n)")
+        found = "; ".join(ast.unparse(b)[:70] for b in body)
+    ctx.check(ok, "pack_p_sys classifies the rows of every signal by the signal's own parametric flag", detail="rows of a signal attributed to the wrong family (or offsets not advanced for every signal)",
+              expected="for e in self.signals.values(): n = e.coeff.shape[0]; (rows_p if e.parametric else rows_v).extend(range(offset, offset+n)); offset += n", found=found, fi=f)
+    rets = [r for r in walk_no_nested(f.node) if isinstance(r, ast.Return) and r.value is not None]
+    full = K("vertcat({pv}[:n_p,:], {sg}[rows_p,:], {pv}[n_p:,:], {sg}[rows_v,:])".format(pv=pv, sg=sg))
+    short = K("vertcat(%s, %s)" % (pv, sg))
+    ok = True
+    seen_full = False
+    for r in rets:
+        kk = Norm(None).key(r.value)
+        if kk == full:
+            seen_full = True
+        elif kk == short:
+            gs = [(ast.unparse(t), pol) for t, pol in sc.path_guards(r)]
+            ok = ok and gs in ([("rows_p", False)], [("not rows_p", True)], [("len(rows_p) == 0", True)])
+        else:
+            ok = False
+    ctx.check(ok and seen_full, "pack_p_sys returns [pv[:n_p], parameter signals, pv[n_p:], variable signals]", detail="layout of the packed vector", expected="vertcat(pv[:n_p,:], signals[rows_p,:], pv[n_p:,:], signals[rows_v,:]) (shortcut vertcat(pv, signals) only without parameter signals)",
+              found="; ".join(ast.unparse(r.value)[:90] for r in rets), fi=f)
+    return True
+
+
 def check_pack_order(ctx):
     """R01.7 / R02.7 / R09.5 / R17.4: order of kinds supplied as `p` vs order expected by the ODE function."""
     check_signal_order(ctx)
     f, k, seq, nodes = get_p_sys_sequence(ctx)
     want = stage_pack_sequence(ctx)
-    # signals hold bspline variables first (add_variables_V runs before add_parameter_signals), then bspline parameters
+    packed = check_packer(ctx)
+    via_packer = packed and any(isinstance(r, ast.Return) and is_call_to(r.value, "pack_p_sys", "self") for r in walk_no_nested(f.node))
+    # without a packer: signals are appended at the end, bspline variables first (add_variables_V runs before add_parameter_signals), then bspline parameters
     supplied = []
-    for s in seq:
-        if s == "signals":
-            supplied += ["V:bspline", "P:bspline"]
-        else:
-            supplied.append(s)
+    plain = [s for s in seq if s != "signals"]
+    if via_packer and "signals" in seq:
+        firstv = next((i for i, s in enumerate(plain) if s.startswith("V:")), len(plain))
+        supplied = plain[:firstv] + ["P:bspline"] + plain[firstv:] + ["V:bspline"]
+    else:
+        for s in seq:
+            if s == "signals":
+                supplied += ["V:bspline", "P:bspline"]
+            else:
+                supplied.append(s)
     ctx.note("pack_supplied", supplied)
     ctx.note("pack_expected", want)
     common = lcs(supplied, want)
@@ -517,6 +593,28 @@ def check_pack_order(ctx):
     for s in supplied:
         if s not in want:
             ctx.fail("get_p_sys~Stage.p+Stage.v", detail="kind=%s" % s, expected=want, found=supplied, fi=f)
+    # DirectCollocation merges get_p_sys(.., include_signals=False) with the signals sampled at the collocation times itself
+    P = ctx.prog
+    dc = P.own_method("DirectCollocation", "add_constraints")
+    scd = ctx.scope(dc)
+    merges = []
+    for c in walk_no_nested(dc.node):
+        if isinstance(c, ast.Call) and any("signals_sampled[" in ast.unparse(a) for a in c.args) and (is_call_to(c, "vertcat") or is_call_to(c, "vcat") or is_call_to(c, "pack_p_sys", "self")):
+            merges.append(c)
+    if len(merges) != 1:
+        raise AnalysisError("DirectCollocation.add_constraints: expected one merge of get_p_sys(...) with signals_sampled[...], found %d" % len(merges))
+    m = merges[0]
+    base = [x for x in seq if x != "signals"]
+    if packed and is_call_to(m, "pack_p_sys", "self") and len(m.args) == 3 and ast.unparse(m.args[0]) == "stage" and ast.unparse(m.args[2]).startswith("signals_sampled["):
+        firstv = next((i for i, x in enumerate(base) if x.startswith("V:")), len(base))
+        sup_dc = base[:firstv] + ["P:bspline"] + base[firstv:] + ["V:bspline"]
+    else:
+        sup_dc = base + ["V:bspline", "P:bspline"]
+    common = lcs(sup_dc, want)
+    displaced = [x for x in want if x not in common]
+    for kind in want:
+        ctx.check(kind not in displaced, "DirectCollocation.add_constraints~Stage.p+Stage.v", detail="kind=%s" % kind,
+                  expected="order of the ODE's p input: %s" % want, found="order supplied at the collocation times: %s" % sup_dc, fi=dc, node=m, sample={"kind": kind})
     return f, k, seq, nodes
 
 
@@ -530,7 +628,12 @@ def r01_6(ctx):
         ok = isinstance(e, ast.Call) and len(e.args) == 2 and ast.unparse(e.args[1]) == k and ast.unparse(e.args[0]) == f.params[1]
         ctx.check(ok and not s.startswith("?"), "get_p_sys element %s" % s, detail="per-interval data of another interval", expected="self.<helper>(stage, %s)" % k, found=ast.unparse(e), fi=f, node=e)
     rets = [r for r in walk_no_nested(f.node) if isinstance(r, ast.Return) and r.value is not None]
-    ctx.check(len(rets) == 1 and ast.unparse(rets[0].value) in ("vcat(args)", "vvcat(args)", "veccat(*args)"), "get_p_sys stacks the pieces in list order", detail="packing", expected="vcat(args)",
+    STACK = ("vcat(args)", "vvcat(args)", "veccat(*args)")
+    def ok_ret(v):
+        if ast.unparse(v) in STACK:
+            return True
+        return is_call_to(v, "pack_p_sys", "self") and len(v.args) == 3 and ast.unparse(v.args[0]) == f.params[1] and ast.unparse(v.args[1]) in STACK
+    ctx.check(1 <= len(rets) <= 2 and all(ok_ret(r.value) for r in rets), "get_p_sys stacks the pieces in list order", detail="packing", expected="vcat(args) [handed to pack_p_sys together with the signals]",
               found="; ".join(ast.unparse(r.value) for r in rets), fi=f)
 
 
@@ -621,10 +724,16 @@ def check_pack_order_fine(ctx):
     feeds = [c for c in walk_no_nested(g.node) if is_call_to(c, "get_p_sys", "stage._method")]
     plain = [c for c in feeds if any(k.arg == "include_signals" and ast.unparse(k.value) == "False" for k in c.keywords)]
     appended = any(is_call_to(c, "vertcat") and any("signals_sampled" in ast.unparse(a) for a in c.args) and ast.unparse(c.args[-1]).startswith("signals_sampled") for c in walk_no_nested(g.node))
+    packed_calls = [c for c in walk_no_nested(g.node) if is_call_to(c, "pack_p_sys", "stage._method") and len(c.args) == 3 and ast.unparse(c.args[0]) == "stage" and ast.unparse(c.args[2]).startswith("signals_sampled")]
     check_signal_order(ctx)
     f, k, seq, nodes = get_p_sys_sequence(ctx)
     want = stage_pack_sequence(ctx)
-    supplied = [s for s in seq if s != "signals"] + (["V:bspline", "P:bspline"] if (plain and appended) or "signals" in seq else [])
+    base = [s for s in seq if s != "signals"]
+    if packed_calls and not appended and check_packer(ctx):
+        firstv = next((i for i, s in enumerate(base) if s.startswith("V:")), len(base))
+        supplied = base[:firstv] + ["P:bspline"] + base[firstv:] + ["V:bspline"]
+    else:
+        supplied = base + (["V:bspline", "P:bspline"] if (plain and appended) or "signals" in seq else [])
     common = lcs(supplied, want)
     displaced = [x for x in want if x not in common] + [x for x in supplied if x not in common and x not in want]
     for kind in want:
